@@ -15,7 +15,7 @@
     - [compose_exactly_once]: when all workers have finished, the solved list is a permutation of
       the work and the program of every piece has returned - each was run to completion, by the
       one worker that popped it ([solver_unique]). *)
-From TB Require Import Base TorrentModel PathModel FsModel SolverModel RunModel SystemModel ExecModel ExecProofs TerminationProofs.
+From TB Require Import Base TorrentModel PathModel FsModel SolverModel RunModel SystemModel SystemProofs EstablishProofs ExecModel ExecProofs TerminationProofs.
 From Coq Require Import Wellfounded Permutation Lia List Arith.
 Import ListNotations.
 
@@ -39,9 +39,20 @@ Notation einit := (init nat n).
 
 Record cst := { ce : est; cs : sys }.
 
+(** The steps the programs may take: [pstep] is [sstep] (failures, arbitrary read answers, cut
+    writes) or [fstep] (the fault-free system) - any sub-relation of [sstep] under which the
+    programs of the pool ([okp], closed under continuation) can always move until they return. *)
+Variable pstep : sys -> sys -> Prop.
+Hypothesis pstep_sstep : forall s s', pstep s s' -> sstep s s'.
+
 (** A step of the system that is a step of program [w] (and of no other). *)
 Definition sstep_at (w : nat) (s s' : sys) : Prop :=
-  sstep s s' /\ exists pg pg', nth_error (s_pool s) w = Some pg /\ psub pg' pg /\ s_pool s' = set_nth (s_pool s) w pg'.
+  pstep s s' /\ exists pg pg', nth_error (s_pool s) w = Some pg /\ psub pg' pg /\ s_pool s' = set_nth (s_pool s) w pg'.
+
+Variable okp : prog -> Prop.
+Hypothesis okp_sub : forall pg pg', okp pg -> psub pg' pg -> okp pg'.
+Hypothesis okp_moves : forall f pool w pg, nth_error pool w = Some pg -> okp pg -> (forall o, pg <> Ret o) ->
+  exists s', sstep_at w {| s_fs := f; s_pool := pool |} s'.
 
 Inductive cstep (t : nat) : cst -> cst -> Prop :=
 | c_exec c e' : (forall w, pc (ce c) t <> PSolve w) -> estep t (ce c) e' -> cstep t c {| ce := e'; cs := cs c |}
@@ -71,7 +82,7 @@ Lemma proj_sys c0 c : creach c0 c -> sreach (cs c0) (cs c).
 Proof.
   induction 1 as [|c c' _ IH (t & Ht & Hst)]; [apply sr_refl|].
   destruct Hst as [c e' _ _|c w s' _ [Hs _]|c w o e' _ _ _]; cbn [cs]; [exact IH| |exact IH].
-  exact (sreach_snoc _ _ _ IH Hs).
+  exact (sreach_snoc _ _ _ IH (pstep_sstep _ _ Hs)).
 Qed.
 
 (** ** Termination *)
@@ -185,22 +196,21 @@ Proof.
 Qed.
 
 (** ** Progress *)
-Lemma unreturned_can_step f pool w pg : nth_error pool w = Some pg -> (forall o, pg <> Ret o) ->
-  exists s', sstep_at w {| s_fs := f; s_pool := pool |} s'.
+Lemma Forall_set_nth' {A} (P : A -> Prop) (l : list A) : forall i x, Forall P l -> P x -> Forall P (set_nth l i x).
+Proof. induction l as [|y r IH]; intros [|i] x Hl Hx; cbn; auto; inversion Hl; subst; constructor; auto. Qed.
+
+Lemma pool_ok_reach f pool c : Forall okp pool -> creach (cinit f pool) c -> Forall okp (s_pool (cs c)).
 Proof.
-  intros Hn Hnr. destruct pg as [o|p wr k|p off len k|o k|id k|id k].
-  - exfalso. exact (Hnr o eq_refl).
-  - eexists. split; [exact (ss_probe f pool w p wr k PNotFound Hn)|]. eexists _, _. split; [exact Hn|]. split; [constructor|reflexivity].
-  - eexists. split; [exact (ss_read f pool w p off len k None Hn)|]. eexists _, _. split; [exact Hn|]. split; [constructor|reflexivity].
-  - eexists. split; [exact (ss_mut_fail f pool w o k Hn)|]. eexists _, _. split; [exact Hn|]. split; [constructor|reflexivity].
-  - eexists. split; [exact (ss_lock f pool w id k Hn)|]. eexists _, _. split; [exact Hn|]. split; [constructor|reflexivity].
-  - eexists. split; [exact (ss_unlock f pool w id k Hn)|]. eexists _, _. split; [exact Hn|]. split; [constructor|reflexivity].
+  intros Hok. induction 1 as [|c c' _ IH (t & Ht & Hst)]; [exact Hok|].
+  destruct Hst as [c e' _ _|c w s' _ (_ & pg & pg' & Hn & Hsub & Hp)|c w o e' _ _ _]; cbn [cs]; try exact IH.
+  rewrite Hp. apply Forall_set_nth'; [exact IH|]. apply (okp_sub pg pg'); [|exact Hsub].
+  rewrite Forall_forall in IH. exact (IH pg (nth_error_In _ _ Hn)).
 Qed.
 
-Theorem compose_progress f pool c : (forall w, In w (flat nat n q0) -> w < length pool) ->
+Theorem compose_progress f pool c : (forall w, In w (flat nat n q0) -> w < length pool) -> Forall okp pool ->
   creach (cinit f pool) c -> (exists t, t < n /\ pc (ce c) t <> PDone) -> exists c', cany c c'.
 Proof.
-  intros Hidx Hr Hnd. pose proof (proj_exec _ _ Hr) as Her. cbn [cinit ce] in Her.
+  intros Hidx Hok Hr Hnd. pose proof (proj_exec _ _ Hr) as Her. cbn [cinit ce] in Her.
   destruct (exec_deadlock_free nat n balanced Hperm Hout Hmono Htotal q0 (ce c) Hq0 Her Hnd) as (e' & t & Ht & Hst).
   destruct (pc (ce c) t) as [| |w| | | | | | | | | |] eqn:Hpc;
     try (eexists; exists t; split; [exact Ht|]; apply (c_exec t c e'); [intros w Hw; congruence|exact Hst]).
@@ -210,7 +220,9 @@ Proof.
   destruct (is_ret_dec pg) as [[o ->]|Hnr].
   - eexists. exists t. split; [exact Ht|]. exact (c_done t c w o e' Hpc En Hst).
   - destruct (cs c) as [fc poolc] eqn:Ecs. cbn [s_pool] in *.
-    destruct (unreturned_can_step fc poolc w pg En) as [s' Hs']. { intros o Ho. apply Hnr. eauto. }
+    assert (Hokc : Forall okp poolc) by (pose proof (pool_ok_reach f pool c Hok Hr) as Hx; rewrite Ecs in Hx; exact Hx).
+    rewrite Forall_forall in Hokc.
+    destruct (okp_moves fc poolc w pg En (Hokc pg (nth_error_In _ _ En))) as [s' Hs']. { intros o Ho. apply Hnr. eauto. }
     eexists. exists t. split; [exact Ht|]. apply (c_prog t c w s' Hpc). rewrite Ecs. exact Hs'.
 Qed.
 
@@ -241,16 +253,149 @@ Qed.
 Lemma creach_trans c0 c1 c2 : creach c0 c1 -> creach c1 c2 -> creach c0 c2.
 Proof. intros H1 H2. induction H2 as [|c c' _ IH Hst]; [exact H1|exact (cr_step c0 c c' IH Hst)]. Qed.
 
-Theorem compose_completes f pool : (forall w, In w (flat nat n q0) -> w < length pool) ->
+Theorem compose_completes f pool : (forall w, In w (flat nat n q0) -> w < length pool) -> Forall okp pool ->
   exists c, creach (cinit f pool) c /\ forall t, t < n -> pc (ce c) t = PDone.
 Proof.
-  intros Hidx.
+  intros Hidx Hok.
   assert (G : forall c, Acc (fun c'' c' => cany c' c'') c -> creach (cinit f pool) c ->
               exists c', creach (cinit f pool) c' /\ forall t, t < n -> pc (ce c') t = PDone).
   { induction 1 as [c _ IH]. intros Hr. destruct (all_done_dec (ce c) n) as [Hd|Hnd]; [exists c; auto|].
-    destruct (compose_progress f pool c Hidx Hr Hnd) as [c' Hst].
+    destruct (compose_progress f pool c Hidx Hok Hr Hnd) as [c' Hst].
     exact (IH c' Hst (cr_step _ c c' Hr Hst)). }
   apply (G (cinit f pool)); [|constructor]. apply compose_terminates. cbn [cinit ce]. constructor.
 Qed.
 
 End Compose.
+
+(** ** The two instances *)
+(** Full system: every program can always move (a failing operation, an arbitrary read answer). *)
+Lemma sstep_moves f pool w pg : nth_error pool w = Some pg -> True -> (forall o, pg <> Ret o) ->
+  exists s', sstep_at sstep w {| s_fs := f; s_pool := pool |} s'.
+Proof.
+  intros Hn _ Hnr. destruct pg as [o|p wr k|p off len k|o k|id k|id k].
+  - exfalso. exact (Hnr o eq_refl).
+  - eexists. split; [exact (ss_probe f pool w p wr k PNotFound Hn)|]. eexists _, _. split; [exact Hn|]. split; [constructor|reflexivity].
+  - eexists. split; [exact (ss_read f pool w p off len k None Hn)|]. eexists _, _. split; [exact Hn|]. split; [constructor|reflexivity].
+  - eexists. split; [exact (ss_mut_fail f pool w o k Hn)|]. eexists _, _. split; [exact Hn|]. split; [constructor|reflexivity].
+  - eexists. split; [exact (ss_lock f pool w id k Hn)|]. eexists _, _. split; [exact Hn|]. split; [constructor|reflexivity].
+  - eexists. split; [exact (ss_unlock f pool w id k Hn)|]. eexists _, _. split; [exact Hn|]. split; [constructor|reflexivity].
+Qed.
+
+(** Fault-free system: programs without [Probe] (every piece evaluation: SolverProofs.good) can always move. *)
+Inductive noprobe : prog -> Prop :=
+| np_ret o : noprobe (Ret o)
+| np_read p off len k : (forall r, noprobe (k r)) -> noprobe (Read p off len k)
+| np_mut o k : (forall b, noprobe (k b)) -> noprobe (Mut o k)
+| np_lock i k : noprobe k -> noprobe (Lock i k)
+| np_unlock i k : noprobe k -> noprobe (Unlock i k).
+
+Lemma noprobe_sub pg pg' : noprobe pg -> psub pg' pg -> noprobe pg'.
+Proof. intros Hn Hs. destruct Hs; inversion Hn; subst; auto. constructor. Qed.
+
+Lemma fstep_moves f pool w pg : nth_error pool w = Some pg -> noprobe pg -> (forall o, pg <> Ret o) ->
+  exists s', sstep_at fstep w {| s_fs := f; s_pool := pool |} s'.
+Proof.
+  intros Hn Hnp Hnr. destruct pg as [o|p wr k|p off len k|o k|id k|id k].
+  - exfalso. exact (Hnr o eq_refl).
+  - inversion Hnp.
+  - eexists. split; [exact (fs_read_ f pool w p off len k Hn)|]. eexists _, _. split; [exact Hn|]. split; [constructor|reflexivity].
+  - destruct (apply_op f o) as [f1 ok] eqn:Ea. eexists. split; [exact (fs_mut f pool w o k f1 ok Hn Ea)|]. eexists _, _. split; [exact Hn|]. split; [constructor|reflexivity].
+  - eexists. split; [exact (fs_lock f pool w id k Hn)|]. eexists _, _. split; [exact Hn|]. split; [constructor|reflexivity].
+  - eexists. split; [exact (fs_unlock f pool w id k Hn)|]. eexists _, _. split; [exact Hn|]. split; [constructor|reflexivity].
+Qed.
+
+Lemma freach_snoc s s' s'' : EstablishProofs.freach s s' -> fstep s' s'' -> EstablishProofs.freach s s''.
+Proof.
+  induction 1 as [s|s s1 s2 Hst _ IH]; intros H2; [eapply EstablishProofs.fr_step; [exact H2|apply EstablishProofs.fr_refl]|eapply EstablishProofs.fr_step; [exact Hst|exact (IH H2)]].
+Qed.
+
+(** A run of the fault-free composition is a fault-free run of the system. *)
+Lemma proj_fsys n balanced c0 c : creach n balanced fstep c0 c -> EstablishProofs.freach (cs c0) (cs c).
+Proof.
+  induction 1 as [|c c' _ IH (t & Ht & Hst)]; [apply EstablishProofs.fr_refl|].
+  destruct Hst as [c e' _ _|c w s' _ [Hs _]|c w o e' _ _ _]; cbn [cs]; [exact IH| |exact IH].
+  exact (freach_snoc _ _ _ IH Hs).
+Qed.
+
+(** Program [i] fault-free, every other program free to fail ([mreach i], C13). *)
+Definition pstep_but (i : nat) (s s' : sys) : Prop := fstep s s' \/ ostep i s s'.
+
+Lemma pstep_but_sstep i s s' : pstep_but i s s' -> sstep s s'.
+Proof. intros [Hf|[Hs _]]; [exact (fstep_is_sstep _ _ Hf)|exact Hs]. Qed.
+
+Lemma nth_set_nth_other' {A} (l : list A) : forall i j x, i <> j -> nth_error (set_nth l j x) i = nth_error l i.
+Proof. induction l as [|y r IH]; intros [|i] [|j] x Hij; cbn; auto; try congruence. Qed.
+
+Lemma pstep_but_moves i f pool w pg : nth_error pool w = Some pg -> noprobe pg -> (forall o, pg <> Ret o) ->
+  exists s', sstep_at (pstep_but i) w {| s_fs := f; s_pool := pool |} s'.
+Proof.
+  intros Hn Hnp Hnr. destruct (fstep_moves f pool w pg Hn Hnp Hnr) as (s' & Hf & Hrest). exists s'. split; [now left|exact Hrest].
+Qed.
+
+Lemma mreach_snoc_own i s s' s'' : mreach i s s' -> fstep s' s'' -> mreach i s s''.
+Proof.
+  induction 1 as [s|s s1 s2 Hst _ IH|s s1 s2 Hst _ IH]; intros H2.
+  - eapply mr_own; [exact H2|apply mr_refl].
+  - eapply mr_own; [exact Hst|exact (IH H2)].
+  - eapply mr_other; [exact Hst|exact (IH H2)].
+Qed.
+Lemma mreach_snoc_other i s s' s'' : mreach i s s' -> ostep i s' s'' -> mreach i s s''.
+Proof.
+  induction 1 as [s|s s1 s2 Hst _ IH|s s1 s2 Hst _ IH]; intros H2.
+  - eapply mr_other; [exact H2|apply mr_refl].
+  - eapply mr_own; [exact Hst|exact (IH H2)].
+  - eapply mr_other; [exact Hst|exact (IH H2)].
+Qed.
+
+Lemma proj_msys n balanced i c0 c : creach n balanced (pstep_but i) c0 c -> mreach i (cs c0) (cs c).
+Proof.
+  induction 1 as [|c c' _ IH (t & Ht & Hst)]; [apply mr_refl|].
+  destruct Hst as [c e' _ _|c w s' _ [[Hf|Ho] _]|c w o e' _ _ _]; cbn [cs]; try exact IH.
+  - exact (mreach_snoc_own i _ _ _ IH Hf).
+  - exact (mreach_snoc_other i _ _ _ IH Ho).
+Qed.
+
+(** ** The composition over the full system, stated without the generic parameters *)
+Section Full.
+Variable n : nat.
+Variable balanced : nat -> (nat -> list nat) -> (nat -> list nat) -> Prop.
+Hypothesis Hperm : forall a f f', balanced a f f' -> Permutation (flat nat a f') (flat nat a f).
+Hypothesis Hout : forall a f f' i, balanced a f f' -> a <= i -> f' i = f i.
+Hypothesis Hmono : forall a f f' i j, balanced a f f' -> i <= j -> j < a -> length (f' j) <= length (f' i).
+Hypothesis Htotal : forall a f, exists f', balanced a f f'.
+Variable q0 : nat -> list nat.
+Hypothesis Hq0 : forall i, n <= i -> q0 i = [].
+
+Lemma all_true (pool : list prog) : Forall (fun _ => True) pool.
+Proof. apply Forall_forall. intros; exact I. Qed.
+
+Theorem full_proj_sys c0 c : creach n balanced sstep c0 c -> sreach (cs c0) (cs c).
+Proof. exact (proj_sys n balanced sstep (fun s s' Hs => Hs) c0 c). Qed.
+
+Theorem full_progress f pool c : (forall w, In w (flat nat n q0) -> w < length pool) ->
+  creach n balanced sstep (cinit n q0 f pool) c -> (exists t, t < n /\ pc (ce c) t <> PDone) -> exists c', cany n balanced sstep c c'.
+Proof.
+  intros Hidx. exact (compose_progress n balanced Hperm Hout Hmono Htotal sstep (fun _ => True) (fun _ _ _ _ => I) sstep_moves q0 Hq0 f pool c Hidx (all_true pool)).
+Qed.
+
+Theorem full_completes f pool : (forall w, In w (flat nat n q0) -> w < length pool) ->
+  exists c, creach n balanced sstep (cinit n q0 f pool) c /\ forall t, t < n -> pc (ce c) t = PDone.
+Proof.
+  intros Hidx. exact (compose_completes n balanced Hperm Hout Hmono Htotal sstep (fun _ => True) (fun _ _ _ _ => I) sstep_moves q0 Hq0 f pool Hidx (all_true pool)).
+Qed.
+
+(** ... and over the fault-free system, for pools of Probe-free programs. *)
+Theorem ff_progress f pool c : (forall w, In w (flat nat n q0) -> w < length pool) -> Forall noprobe pool ->
+  creach n balanced fstep (cinit n q0 f pool) c -> (exists t, t < n /\ pc (ce c) t <> PDone) -> exists c', cany n balanced fstep c c'.
+Proof. exact (compose_progress n balanced Hperm Hout Hmono Htotal fstep noprobe noprobe_sub fstep_moves q0 Hq0 f pool c). Qed.
+
+Theorem ff_completes f pool : (forall w, In w (flat nat n q0) -> w < length pool) -> Forall noprobe pool ->
+  exists c, creach n balanced fstep (cinit n q0 f pool) c /\ forall t, t < n -> pc (ce c) t = PDone.
+Proof. exact (compose_completes n balanced Hperm Hout Hmono Htotal fstep noprobe noprobe_sub fstep_moves q0 Hq0 f pool). Qed.
+
+(** ... and with every program but [i] free to fail. *)
+Theorem but_completes i f pool : (forall w, In w (flat nat n q0) -> w < length pool) -> Forall noprobe pool ->
+  exists c, creach n balanced (pstep_but i) (cinit n q0 f pool) c /\ forall t, t < n -> pc (ce c) t = PDone.
+Proof. exact (compose_completes n balanced Hperm Hout Hmono Htotal (pstep_but i) noprobe noprobe_sub (pstep_but_moves i) q0 Hq0 f pool). Qed.
+
+End Full.
